@@ -3,7 +3,9 @@ package main
 import (
 	"fmt"
 	"go/ast"
+	"go/token"
 	"go/types"
+	"golang.org/x/tools/go/packages"
 	"sort"
 	"strings"
 )
@@ -62,6 +64,63 @@ func ruleConverterCompleteness(c *Ctx) {
 			}
 			return true
 		})
+		// … also by a function of the package the object is handed to (protoPromiseMeta(p, promise))
+		if curProgram != nil {
+			var pk *packages.Package
+			for _, r := range curProgram.Roots {
+				if r.TypesInfo == info {
+					pk = r
+				}
+			}
+			var holder types.Object
+			ast.Inspect(fd.Body, func(x ast.Node) bool {
+				if as, ok := x.(*ast.AssignStmt); ok && len(as.Lhs) == len(as.Rhs) {
+					for i, r := range as.Rhs {
+						v := ast.Unparen(r)
+						if u, ok := v.(*ast.UnaryExpr); ok && u.Op == token.AND {
+							v = ast.Unparen(u.X)
+						}
+						if v == ast.Expr(cl) {
+							if id, ok := as.Lhs[i].(*ast.Ident); ok {
+								if holder = info.Defs[id]; holder == nil {
+									holder = info.Uses[id]
+								}
+							}
+						}
+					}
+				}
+				return true
+			})
+			if pk != nil && holder != nil {
+				for _, call := range callsInDeep(fd.Body) {
+					fn, ok := calleeOf(info, call).(*types.Func)
+					if !ok || fn.Pkg() != pk.Types {
+						continue
+					}
+					hd := funcDeclOf(pk, fn)
+					if hd == nil || hd.Body == nil {
+						continue
+					}
+					sig := fn.Type().(*types.Signature)
+					for i, a := range call.Args {
+						if i >= sig.Params().Len() || !isObj(info, a, holder) {
+							continue
+						}
+						par := sig.Params().At(i)
+						ast.Inspect(hd.Body, func(x ast.Node) bool {
+							if as, ok := x.(*ast.AssignStmt); ok {
+								for _, l := range as.Lhs {
+									if se, ok := ast.Unparen(l).(*ast.SelectorExpr); ok && isObj(info, se.X, par) {
+										set[se.Sel.Name] = true
+									}
+								}
+							}
+							return true
+						})
+					}
+				}
+			}
+		}
 		var missing []string
 		for i := 0; i < st.NumFields(); i++ {
 			f := st.Field(i)
